@@ -755,3 +755,107 @@ Example ex_featureinfo_dimension :
   serve_tile ex_layer [] (mkReq WmtsKvpFI (Some 0) (Some 0) (Some 0) (Some 1) None [(1, 3)] true true true 3 4) =
     (Ok, [EInfo (0, 0, 2560, 2560) 3 4]).
 Proof. vm_compute. split; reflexivity. Qed.
+
+(* ---- how many upstream requests TileManager.load_tile_coords makes (meta tiles, meta_buffer, minimize_meta_requests) *)
+
+Definition is_up (e : effect) : bool := match e with EUp _ _ _ => true | _ => false end.
+(* number of upstream GetMap requests in an effect list *)
+Definition upstream_requests (l : list effect) : nat := length (filter is_up l).
+Definition is_store (e : effect) : bool := match e with EStore _ => true | _ => false end.
+Definition missing_tiles (cached : list coord) (cs : list (option coord)) : list coord :=
+  filter (fun c => negb (coord_in c cached)) (somes cs).
+
+Lemma ups_app a b : upstream_requests (a ++ b) = (upstream_requests a + upstream_requests b)%nat.
+Proof. unfold upstream_requests. rewrite filter_app, app_length. reflexivity. Qed.
+
+Lemma ups_map_no (f : coord -> effect) l : (forall c, is_up (f c) = false) -> upstream_requests (map f l) = 0%nat.
+Proof.
+  intros H. unfold upstream_requests. induction l as [|a r IH]; [reflexivity|].
+  cbn [map filter]. rewrite H. exact IH.
+Qed.
+
+Lemma ups_up_request ly l b : upstream_requests [up_request ly l b] = 1%nat.
+Proof. unfold up_request. destruct (bbox_px ly l (buffered_bbox ly l b)). reflexivity. Qed.
+
+Lemma ups_create_meta ly m : upstream_requests (create_meta ly m) = 1%nat.
+Proof.
+  unfold create_meta. rewrite !ups_app, ups_up_request.
+  rewrite !ups_map_no by (intros; reflexivity). reflexivity.
+Qed.
+
+Lemma ups_flat_create ly ms : upstream_requests (flat_map (create_meta ly) ms) = length ms.
+Proof.
+  induction ms as [|m r IH]; [reflexivity|].
+  cbn [flat_map length]. rewrite ups_app, ups_create_meta, IH. reflexivity.
+Qed.
+
+Lemma ups_minimal_meta ly missing : (upstream_requests (minimal_meta ly missing) <= 1)%nat.
+Proof.
+  unfold minimal_meta. destruct (rev missing) as [|c0 r]; [cbn; lia|].
+  rewrite !ups_app, ups_up_request. rewrite !ups_map_no by (intros; reflexivity). lia.
+Qed.
+
+Lemma dedup_coords_length l : (length (dedup_coords l) <= length l)%nat.
+Proof.
+  induction l as [|c r IH]; [cbn; lia|].
+  cbn [dedup_coords length]. destruct (coord_in c r); cbn [length]; lia.
+Qed.
+
+(* a request whose tiles are all in the cache reads them and does nothing else: no upstream request, no store *)
+Lemma load_all_cached ly cached cs :
+  missing_tiles cached cs = [] ->
+  load_tile_coords ly cached cs = map ERead (somes cs) ++ map EProbe (somes cs).
+Proof.
+  unfold missing_tiles, load_tile_coords. intros H. rewrite H. cbn [map dedup_coords flat_map length].
+  rewrite andb_false_r. rewrite !app_nil_r. reflexivity.
+Qed.
+
+(* never more upstream requests than missing tiles (meta tiles only ever merge requests) *)
+Lemma load_upstream_at_most_missing ly cached cs :
+  (upstream_requests (load_tile_coords ly cached cs) <= length (missing_tiles cached cs))%nat.
+Proof.
+  unfold load_tile_coords. fold (missing_tiles cached cs). set (ms := missing_tiles cached cs).
+  rewrite !ups_app. rewrite !ups_map_no by (intros; reflexivity).
+  destruct (has_meta_grid ly && lminimize ly && (1 <? Z.of_nat (length ms))) eqn:E.
+  - pose proof (ups_minimal_meta ly ms). apply andb_prop in E. destruct E as [_ E].
+    apply Z.ltb_lt in E. lia.
+  - rewrite ups_flat_create. pose proof (dedup_coords_length (map (main_tile ly) ms)).
+    rewrite map_length in H. lia.
+Qed.
+
+(* minimize_meta_requests on a cache with a meta grid (meta_size > 1x1 or a meta_buffer): at most one upstream
+   request per load_tile_coords call, however many tiles are missing *)
+Lemma load_minimize_one_request ly cached cs :
+  has_meta_grid ly = true -> lminimize ly = true ->
+  (upstream_requests (load_tile_coords ly cached cs) <= 1)%nat.
+Proof.
+  intros Hg Hm. unfold load_tile_coords. fold (missing_tiles cached cs). set (ms := missing_tiles cached cs).
+  rewrite !ups_app. rewrite !ups_map_no by (intros; reflexivity).
+  rewrite Hg, Hm. cbn [andb].
+  destruct (1 <? Z.of_nat (length ms)) eqn:E.
+  - pose proof (ups_minimal_meta ly ms). lia.
+  - apply Z.ltb_ge in E. rewrite ups_flat_create.
+    pose proof (dedup_coords_length (map (main_tile ly) ms)). rewrite map_length in H. lia.
+Qed.
+
+(* without minimize_meta_requests: exactly one upstream request per distinct meta tile with a missing tile *)
+Lemma load_one_request_per_meta_tile ly cached cs :
+  lminimize ly = false ->
+  upstream_requests (load_tile_coords ly cached cs) =
+    length (dedup_coords (map (main_tile ly) (missing_tiles cached cs))).
+Proof.
+  intros Hm. unfold load_tile_coords. fold (missing_tiles cached cs).
+  rewrite !ups_app. rewrite !ups_map_no by (intros; reflexivity).
+  rewrite Hm, andb_false_r. cbn [andb]. rewrite ups_flat_create. reflexivity.
+Qed.
+
+(* non-vacuity: 3 missing tiles of a 2 x 2 meta grid with a 10 px meta_buffer - two meta tiles, two requests;
+   with minimize_meta_requests one request; everything cached: none *)
+Definition ex_minbuf_layer : layer := mkLayer ex_grid 1 [] 2 2 false false true None false true 10.
+Example ex_upstream_counts :
+  upstream_requests (load_tile_coords ex_buf_layer [] [Some (0, 0, 2); Some (1, 0, 2); Some (2, 0, 2)]) = 2%nat /\
+  upstream_requests (load_tile_coords ex_minbuf_layer [] [Some (0, 0, 2); Some (1, 0, 2); Some (2, 0, 2)]) = 1%nat /\
+  has_meta_grid ex_minbuf_layer = true /\
+  missing_tiles [(0, 0, 2); (1, 0, 2)] [Some (0, 0, 2); None; Some (1, 0, 2)] = [] /\
+  length (missing_tiles [] [Some (0, 0, 2); Some (1, 0, 2); Some (2, 0, 2)]) = 3%nat.
+Proof. vm_compute. repeat split; reflexivity. Qed.
